@@ -31,6 +31,7 @@ var vW Work
 func vF(item any) {
 	i := item.(int)
 	vBegin(i)
+	vYield() // f takes time: other goroutines may run while it is in progress
 	n := vParamItems()
 	for j := 0; j < n; j++ {
 		if vEdge(i, j) {
